@@ -102,7 +102,8 @@ def unit(job, k, c, shape, nt):
         if not job.confirm('shapes', okshape):
             job.violation('shape', dict(key='C02:unit:record-shape', kind='unit', got=[list(np.shape(r[x])) for x in ('val', 'err', 'fstep')]))
             continue
-        job.confirm('inputs-unmodified', r['unchanged'])
+        if not job.confirm('inputs-unmodified', r['unchanged']):
+            job.violation('inputs-modified', dict(key='C02:unit:inputs-modified', kind='unit', model=_model(conds)))
         val, err, fs = cm.flat_list(r['val']), cm.flat_list(r['err']), cm.flat_list(r['fstep'])
         cd, ce, cs, pen = (np.asarray(r[x]) for x in ('cand_d', 'cand_e', 'cand_s', 'pen'))
         rows = cd.shape[0]
@@ -114,6 +115,9 @@ def unit(job, k, c, shape, nt):
             info = dict(kind='unit', col=j)
             job.prove('col%d value/error/step from one common row' % j, common, conds,
                       dict(info, key='C02:unit:not-a-common-row'))
+            # independent of the candidate tables: the reported step is one of the steps that were GIVEN for this column
+            job.prove('col%d final_step is one of the given steps' % j, z3.Or(*[f == sn.lift(steps[i, j]) for i in range(k)]), conds,
+                      dict(info, key='C02:unit:final_step-not-a-given-step'))
             job.prove('col%d error is the column minimum of the penalised errors' % j, z3.And(*[e <= q for q in penal]), conds,
                       dict(info, key='C02:unit:error-not-minimum'))
             job.prove('col%d error_estimate >= 0' % j, e >= 0, conds, dict(info, key='C02:unit:negative-error'))
@@ -358,7 +362,14 @@ def replay(cex):
             L.richardson = ex.Richardson(step_ratio=2.0, step=2, order=2, num_terms=nt)
             try:
                 with cm.quiet():
-                    val, info = L._extrapolate(dv.copy(), hv.copy(), shape)
+                    dv_in, hv_in = dv.copy(), hv.copy()
+                    val, info = L._extrapolate(dv_in, hv_in, shape)
+                    if not (np.array_equal(dv_in, dv, equal_nan=True) and np.array_equal(hv_in, hv)):
+                        return True, '_extrapolate modified its input arrays (steps given %r, afterwards %r)' % (hv.tolist(), hv_in.tolist())
+                    fsr = np.ravel(info.final_step)
+                    for j in range(c):
+                        if fsr[j] not in hv[:, j]:
+                            return True, 'column %d: final_step %r is not one of the given steps %r' % (j, fsr[j], hv[:, j].tolist())
                     d1, e1, s1 = L.richardson(dv.copy(), hv.copy())
                     if len(d1) > 2:
                         d1, e1, s1 = L._wynn_extrapolate(d1, s1)
